@@ -58,6 +58,9 @@ type CallHook struct {
 	Name   string // snap variable
 	Clause *Clause
 	Where  string
+	// ExecOnly ("run:<callee>"): the hook fires only where the call is executed (a direct call, or a deferred call when
+	// the defers run), not where a defer or go statement schedules it
+	ExecOnly bool
 }
 
 type FuncContract struct {
@@ -87,6 +90,7 @@ type FuncContract struct {
 	Lets       []LetDef
 	Checks     map[string]bool
 	Trusted    bool
+	Inline     bool
 	Pure       bool // no heap effects (speclib)
 	NoInline   bool
 	Implements string
@@ -130,7 +134,7 @@ type ContractFile struct {
 }
 
 var clauseKW = map[string]bool{"func": true, "requires": true, "ensures": true, "assigns": true, "loop": true,
-	"invariant": true, "modifies": true, "unroll": true, "let": true, "checks": true, "trusted": true, "pure": true,
+	"invariant": true, "modifies": true, "unroll": true, "let": true, "checks": true, "trusted": true, "pure": true, "inline": true,
 	"implements": true, "ghost": true, "define": true, "axiom": true, "lemma": true, "calls": true, "assert": true,
 	"assume": true, "import": true, "noinline": true, "decreases": true, "atcall": true, "callsonly": true, "cancellable": true, "neverreads": true, "guardedby": true, "dynamiccalls": true}
 
@@ -389,6 +393,10 @@ func parseContractFile(path, pkgPath string, isSpeclib bool) (*ContractFile, err
 					return nil, fmt.Errorf("%s: atcall <callee>[#k] before|after: ...", where)
 				}
 				h := &CallHook{Callee: hd[0], When: hd[1], Where: where}
+				if strings.HasPrefix(hd[0], "!") {
+					hd[0] = strings.TrimPrefix(hd[0], "!")
+					h.Callee, h.ExecOnly = hd[0], true
+				}
 				if k := strings.Index(hd[0], "#"); k >= 0 {
 					n, err := strconv.Atoi(hd[0][k+1:])
 					if err != nil {
@@ -482,6 +490,10 @@ func parseContractFile(path, pkgPath string, isSpeclib bool) (*ContractFile, err
 				cur.HasAssigns = true
 			case "noinline":
 				cur.NoInline = true
+			case "inline":
+				// the contract is checked on the function itself; callers keep inlining the body (closures that are
+				// both called in place and spawned)
+				cur.Inline = true
 			case "implements":
 				cur.Implements = strings.TrimSpace(l.text)
 			}
